@@ -5,6 +5,7 @@
 -/
 import FqeVerif.Generated.BitsC
 import FqeVerif.Lemmas.Bits
+import FqeVerif.Model.Strings
 namespace GenC
 open Model
 
@@ -97,5 +98,29 @@ theorem unset_bit_eq (b : BitVec 64) (p : Nat) (hp : p < 64) :
       Nat.testBit_lt_two_pow (Nat.lt_of_lt_of_le b.isLt (Nat.pow_le_pow_right (by omega) (by omega)))
     have h2 : ∀ x : BitVec 64, x.getLsbD r = false := fun x => BitVec.getLsbD_of_ge x r (by omega)
     rw [BitVec.testBit_toNat, h2, h1]; rfl
+
+end GenC
+
+namespace GenC
+open Model
+
+theorem and_not_toNat (c y : Nat) (hc : c < 2 ^ 64) : c &&& (2 ^ 64 - 1 - y % 2 ^ 64) = andNot c (y % 2 ^ 64) := by
+  apply Nat.eq_of_testBit_eq
+  intro i
+  have hy : y % 2 ^ 64 < 2 ^ 64 := Nat.mod_lt _ (Nat.two_pow_pos 64)
+  have e : 2 ^ 64 - 1 - y % 2 ^ 64 = 2 ^ 64 - (y % 2 ^ 64 + 1) := by omega
+  rw [testBit_andNot, Nat.testBit_and, e, Nat.testBit_two_pow_sub_succ hy]
+  by_cases h : i < 64
+  · simp [h]
+  · have : c.testBit i = false :=
+      Nat.testBit_lt_two_pow (Nat.lt_of_lt_of_le hc (Nat.pow_le_pow_right (by omega) (by omega)))
+    simp [this]
+
+/-- the translated body of the C generator step equals the `Nat` model of `Model/Strings.lean` -/
+theorem gosper_next_toNat (c : BitVec 64) : (gosper_next c).toNat = gosperNext c.toNat := by
+  unfold gosper_next gosperNext
+  simp only [BitVec.toNat_or, BitVec.toNat_ushiftRight, BitVec.toNat_udiv, BitVec.toNat_and, BitVec.toNat_add,
+    BitVec.toNat_neg, BitVec.toNat_not]
+  rw [← and_not_toNat _ _ c.isLt]
 
 end GenC
